@@ -8,11 +8,11 @@ import (
 	"testing"
 	"time"
 
+	p2ptls "github.com/aperturerobotics/bifrost/crypto/tls"
 	"github.com/aperturerobotics/bifrost/link"
 	"github.com/aperturerobotics/bifrost/peer"
 	transport_quic "github.com/aperturerobotics/bifrost/transport/common/quic"
 	"github.com/aperturerobotics/bifrost/transport/webrtc"
-	p2ptls "github.com/aperturerobotics/bifrost/crypto/tls"
 	"github.com/aperturerobotics/bifrost/util/rwc"
 	"github.com/quic-go/quic-go"
 	"pgregory.net/rapid"
